@@ -489,7 +489,8 @@ class FixedWidthBinning(BinningBase):
             self._times_min = int(np.floor(min / self.bin_width))
             self._shift = min - self._times_min * self.bin_width
         else:
-            self._times_min = bin_times_min
+            # A plain int (also if it comes as a numpy integer): the bin maps derived from it are tested for being int
+            self._times_min = int(bin_times_min) if bin_times_min is not None else None
             self._shift = bin_shift or 0.0
         self._bins = None
         self._numpy_bins = None
